@@ -7,6 +7,7 @@ import (
 	"io"
 	"net"
 	"net/http"
+	neturl "net/url"
 	"os"
 	"path/filepath"
 	"regexp"
@@ -18,6 +19,7 @@ import (
 	wcmd "github.com/hnakamur/whispertool/cmd"
 
 	"verif/fw"
+	"verif/vrt"
 	"verif/wsp"
 )
 
@@ -288,6 +290,56 @@ func c12ManyPaths() []string {
 	return out
 }
 
+// c12ClockIndependence: a request carries the client's clock ("now"); the server's answer is a function of the request
+// and the files alone, so the same request under other SERVER clocks gets the same bytes.
+func c12ClockIndependence(c *fw.Ctx, k c12Case) (sig, desc string) {
+	url, root := c12Server(c)
+	if url == "" {
+		return "", ""
+	}
+	ld := LayoutByTag("L4")
+	l := wsp.Layout{Archs: ld.Archs, Method: 2, XFF: 0}
+	os.RemoveAll(root)
+	r1 := contentByCode(l, k.Now, c12Choices, k.Code)
+	r2 := contentByCode(l, k.Now, c10Choices(1, 3), k.Code2)
+	(&BFile{L: l, Rings: r1}).Write(filepath.Join(root, "a.wsp"))
+	(&BFile{L: l, Rings: r1}).Write(filepath.Join(root, "it", "x", "a.wsp"))
+	(&BFile{L: l, Rings: r2}).Write(filepath.Join(root, "it", "x", "b.wsp"))
+	ts := func(t int64) string { return wt.Timestamp(t).String() }
+	get := func(u string) string {
+		resp, err := http.Get(url + u)
+		if err != nil {
+			return "transport error: " + err.Error()
+		}
+		defer resp.Body.Close()
+		b, _ := io.ReadAll(resp.Body)
+		return fmt.Sprintf("%d %x", resp.StatusCode, b)
+	}
+	rmax := l.MaxRet()
+	for _, w := range [][2]int64{{k.Now - rmax - 1, k.Now}, {k.Now - 3, k.Now - 1}, {0, k.Now}} {
+		for _, arch := range []string{"-1", "0", "1"} {
+			reqs := []string{
+				"/view?file=a.wsp&retention=" + arch + "&from=" + neturl.QueryEscape(ts(w[0])) + "&until=" + neturl.QueryEscape(ts(w[1])) + "&now=" + neturl.QueryEscape(ts(k.Now)),
+				"/sum?item=it.x&pattern=" + neturl.QueryEscape("*.wsp") + "&retention=" + arch + "&from=" + neturl.QueryEscape(ts(w[0])) + "&until=" + neturl.QueryEscape(ts(w[1])) + "&now=" + neturl.QueryEscape(ts(k.Now)),
+			}
+			for _, rq := range reqs {
+				vrt.SetNow(k.Now)
+				ref := get(rq)
+				for _, skew := range []int64{-7, -1, 5, 3600} {
+					vrt.SetNow(k.Now + skew)
+					got := get(rq)
+					vrt.SetNow(0)
+					if got != ref {
+						return "C12/server-clock/" + strings.SplitN(rq[1:], "?", 2)[0], fmt.Sprintf("request %s (client clock %d): answered %s when the server's clock is the client's, %s when it is %+d s off", rq, k.Now, clip(ref, 200), clip(got, 200), skew)
+					}
+				}
+				vrt.SetNow(0)
+			}
+		}
+	}
+	return "", ""
+}
+
 func runC12(c *fw.Ctx) {
 	ld := LayoutByTag("L4")
 	clocks := Clocks(ld.Archs, false, []string{"mid"})
@@ -321,6 +373,16 @@ func runC12(c *fw.Ctx) {
 					if sig != "" {
 						c.Violate(sig, clip(desc, 1500), 60, k, "")
 					}
+				}
+			}
+			if si%20 == 0 {
+				k := c12Case{Code: code, Code2: code2, Now: now, Cmd: "server-clock", Target: "existing", Archive: -1}
+				sig, desc := c12ClockIndependence(c, k)
+				c.Count("evaluations", 1)
+				c.Count("distinct_nontrivial", 1)
+				c.Outcome("server-clock")
+				if sig != "" {
+					c.Violate(sig, clip(desc, 1500), 40, k, "")
 				}
 			}
 			if si%61 == 0 {
@@ -386,6 +448,10 @@ func replayC12(c *fw.Ctx, raw json.RawMessage) (bool, string) {
 	var k c12Case
 	if err := json.Unmarshal(raw, &k); err != nil {
 		return false, err.Error()
+	}
+	if k.Cmd == "server-clock" {
+		sig, desc := c12ClockIndependence(c, k)
+		return sig != "", desc
 	}
 	sig, desc, _ := c12Eval(c, k)
 	return sig != "", desc
